@@ -108,8 +108,9 @@ reg("C20",
          "the model (which has the same panics as explicit results)")
 
 reg("C08",
-    gen=lambda seed, tier: P.gen_commit_programs(G.Rng(seed + 8), N(tier, 120, 1500), big=N(tier, 0.05, 0.1)),
-    monitors=[P.mon_commit],
+    gen=lambda seed, tier: (P.gen_commit_programs(G.Rng(seed + 8), N(tier, 120, 1500), big=N(tier, 0.05, 0.1)) +
+                            P.gen_size_matrix(G.Rng(seed + 81))),
+    monitors=[lambda rr: P.mon_size_matrix(rr) if "matrix" in rr.prog.tags else P.mon_commit(rr)],
     nontrivial=lambda rr: has(rr, ("wcommit",), ("err integrity", "err size", "ok")),
     rule="programs: prior state of the key (absent / present / removed), then a writer (sync/async, keyed/by address, "
          "four algorithms, data incl. 0 B and 1 MiB±1, random chunking) with declared size in {none, =, <, >} and declared "
@@ -190,6 +191,7 @@ def gen_content_programs(seed, tier):
     progs += P.gen_commit_programs(G.Rng(seed + 33), N(tier, 40, 400))
     for p in progs:
         p.ops.append("dump c0/content-v2")
+    progs += P.gen_size_matrix(G.Rng(seed + 34))
     return progs
 
 
@@ -205,7 +207,7 @@ def mon_content_valid(rr):
 
 reg("C03",
     gen=gen_content_programs,
-    monitors=[mon_content_valid],
+    monitors=[mon_content_valid, P.mon_size_matrix],
     extra=lambda seed, tier, flavours: merge(
         LG.leg_skeleton(P.gen_roundtrip_programs(G.Rng(seed + 31), N(tier, 10, 60)), flavours[0]),
         LG.leg_kill_sweep(LG.kill_cases(G.Rng(seed + 32), N(tier, 4, 24)), flavours[0], max_points=N(tier, 14, 200))),
@@ -230,12 +232,16 @@ reg("C04",
 reg("C13",
     gen=lambda seed, tier: P.gen_roundtrip_programs(G.Rng(seed + 13), N(tier, 20, 100)),
     monitors=[P.mon_roundtrip],
-    extra=lambda seed, tier, flavours: LG.leg_fault_injection(LG.fault_cases(G.Rng(seed + 13)), flavours[0], tier),
+    extra=lambda seed, tier, flavours: merge(
+        LG.leg_fault_injection(LG.fault_cases(G.Rng(seed + 13)), flavours[0], tier),
+        LG.leg_short_write(G.Rng(seed + 131), flavours[0], N(tier, 8, 60))),
     nontrivial=lambda rr: True,
     rule="errno injection with strace: for write / write (async) / write_hash / read / metadata / copy / remove / list, "
          "every syscall class x (first, middle, last occurrence in quick; every occurrence in thorough) x {EIO, ENOSPC "
          "(+EACCES, EMFILE thorough)}; judged: error or truthful success, no panic/hang, content area valid, other entry "
-         "intact, retry without fault succeeds and reads back; distinct = (op, syscall, errno, result class)")
+         "intact, retry without fault succeeds and reads back; distinct = (op, syscall, errno, result class); plus real "
+         "SHORT WRITES: a file-size limit (RLIMIT_FSIZE, SIGXFSZ ignored) cuts the index append / temp-file write at several "
+         "byte offsets so that write(2) returns short and the retry fails with EFBIG")
 
 reg("C07",
     gen=lambda seed, tier: P.gen_history_programs(G.Rng(seed + 7), N(tier, 20, 100)),
